@@ -484,6 +484,7 @@ def _into_iter(e, c, a):
     if isinstance(v, Ref) and isinstance(v.get(), SetObj): return _set_iter(e, c, a)
     if isinstance(v, Ref) and isinstance(v.get(), MapObj): return _map_iter(e, c, a)
     if isinstance(v, SetObj): return it_list(hash_order(e, list(v.e)))
+    if isinstance(v, MapObj): return it_list([Struct([ent[0], ent[1][0]]) for ent in hash_order(e, v.e)])
     if isinstance(v, Struct) and c.startswith('<['): return it_list(list(v.f))     # array by value
     return as_it(e, c, v)
 @model('Iterator::next', '*::next')
@@ -743,8 +744,10 @@ def _string_new(e, c, a): return StrBuf('')
 @model('ToString::to_string', 'ToOwned::to_owned', 'str::to_string', 'str::to_owned')
 def _to_string(e, c, a):
     v = unguard(a[0])
+    if is_sym(v): v = e.concretize(v)          # the decimal rendering depends on the value: fork over the feasible ones
     if isinstance(v, StrBuf): return StrBuf(v.s)
     if isinstance(v, str): return StrBuf(v)
+    if isinstance(v, bool): return StrBuf('true' if v else 'false')
     if isinstance(v, int): return StrBuf(str(v))
     raise Unsupported('to_string of %r' % (v,))
 @model('String::as_str', 'String::as_ref', 'String::borrow', 'Borrow::borrow', 'AsRef::as_ref')
@@ -752,6 +755,16 @@ def _as_str(e, c, a):
     v = unguard(a[0])
     if isinstance(v, StrBuf): return v.s
     return a[0]
+@model('str::parse')
+def _str_parse(e, c, a):
+    v = unguard(a[0]); t = v.s if isinstance(v, StrBuf) else v
+    m = re.search(r'parse::<(\w+)>', c)
+    ty = m.group(1) if m else 'usize'
+    if ty in INT_TYPES:
+        w, sg = INT_TYPES[ty]
+        if re.fullmatch(r'\+?\d+', t) and int(t) < (1 << w): return Ok(int(t))
+        return Err(UNIT)
+    raise Unsupported('str::parse to ' + ty)
 @model('str::len', 'String::len')
 def _str_len(e, c, a):
     v = unguard(a[0]); return len((v.s if isinstance(v, StrBuf) else v).encode())
